@@ -423,6 +423,8 @@ def run_resolver(prop, tier, seed, keep=False):
     rc = 0
     with Work(keep) as w:
         w.build()
+        # the sandwich the invariants rest on: MustMatch => MayMatch, monotone fixpoints (exhaustive over the label universe)
+        exhaustive(w, prop, "LabelsLemma.tla", "LL.cfg", "Spec", ["Lemma"], {}, ev, "matching-sandwich-lemma", timeout=300)
         allscn = []
         sid0 = 1
         for (profile, nq, nt) in spec["random"]:
